@@ -1,10 +1,11 @@
 #!/bin/bash
 # seedall.sh [name filter]: replay every seeded change (seeded/*/patch.diff) against its property's check on throw-away copies
-# and print one line per seed: CAUGHT <name> <first violated obligation> | MISSED <name>
+# and print one line per seed: CAUGHT <name> <first violated obligation> | MISSED <name> | OPEN-MISS <name> (meta.json lists no
+# detecting obligation: a recorded miss the technique does not reach, see DESIGN.md section 9)
 cd /verif
 for d in seeded/*${1}*/; do
   n=$(basename $d); p=$(python3 -c "import json;print(json.load(open('$d/meta.json'))['property'])")
   out=$(./seedcheck.sh /verif/$d/patch.diff $p 2>&1)
   v=$(echo "$out" | grep -m1 '^VIOLATION' | sed 's/.*replay\///' | cut -c1-150)
-  if [ -n "$v" ]; then echo "CAUGHT $n $v"; else echo "MISSED $n $(echo "$out" | tail -1 | cut -c1-120)"; fi
+  if [ -n "$v" ]; then echo "CAUGHT $n $v"; elif python3 -c "import json,sys;sys.exit(0 if json.load(open('$d/meta.json')).get('detected_by')==[] else 1)"; then echo "OPEN-MISS $n (recorded in meta.json)"; else echo "MISSED $n $(echo "$out" | tail -1 | cut -c1-120)"; fi
 done
